@@ -226,6 +226,28 @@ CHECKS["C01"] = dict(
     technique="Coq invariant proof (safety, all interleavings) + partial convergence proof by a settling run + refutation witness + model/implementation correspondence + trace monitor",
     ref="5/C01 and 11")
 
+CHECKS["C19"] = dict(
+    text="Machine-checked proofs (Coq) over a transition system of Node.Run's phased shutdown (flags, connection, bounded "
+         "channels whose Add holds the channel mutex while sending, goroutines that register their counter only with "
+         "their first step, consumer that keeps draining after a processing error, save phase, restart loop, Stop call) "
+         "where a run is ANY list of atomic actions (all interleavings of run loop, goroutines, Stop, trusted and "
+         "untrusted peers, any channel capacity): stopped => Run returned, no goroutine alive, no handler invocation "
+         "while stopped; the save step runs only after every goroutine ended and stored = in-memory from then on; after "
+         "a stop request some step is always enabled until stopped, a rank bounds the remaining work and a schedule of "
+         "at most rank steps reaches stopped (termination under the stated fairness hypothesis 'prompt counter "
+         "registration', D27); reconnect keeps the chain and (by C02's theorem) never re-announces a processed height; "
+         "the old consumer (break on error) is REFUTED by a proved witness (D26, repaired in 99e17c5). Correspondence: "
+         "the real Node.Run against a scripted loopback wire peer: stop while connecting / handshaking / header sync / "
+         "mid block / in sync with traffic / after close, reset, silence / during reconnect / consumer abort with a full "
+         "channel; observations: Stop returned within the bound, no callback afterwards, stored = told, announced "
+         "heights contiguous without repeats.",
+    note="Trusted: Coq kernel; hand-written Shutdown.v validated by correspondence on real Node.Run (scenario schedules; "
+         "25 quick / 301 thorough); Go scheduler, TCP and timers are not in the model; untrusted peers are covered by the "
+         "proofs only (harness runs with UntrustedCount = 0); D27 (a goroutine unscheduled for > 100 ms escapes the count) "
+         "is a fairness hypothesis, not replayable without a scheduler hook.",
+    technique="Coq invariant + ranking proofs over a concurrent transition system (all interleavings) + refutation witness for the pre-fix code + scenario correspondence on the real Run loop + trace monitor",
+    ref="5/C19 and 11")
+
 NOT_APPLICABLE = {
     "C01": "not yet claimed in this revision: the liveness model (peer + time-outs) is in progress; the safety half is covered by C02/C12 theorems",
     "C19": "not yet claimed in this revision: shutdown protocol model in progress",
